@@ -455,6 +455,7 @@ func describeOps(ops []porcupine.Operation, n int) []string {
 
 // concurrentHistory runs clients against conn and returns per-key histories.
 func concurrentHistory(conn driver.Conn, nkeys, nclients, opsPer int, seed uint64, tag string, withDelete bool) map[int][]porcupine.Operation {
+	longKeys := strings.HasPrefix(tag, "long")
 	t0 := time.Now()
 	var mu sync.Mutex
 	hist := map[int][]porcupine.Operation{}
@@ -471,6 +472,10 @@ func concurrentHistory(conn driver.Conn, nkeys, nclients, opsPer int, seed uint6
 			for i := 0; i < opsPer; i++ {
 				k := rng.IntN(nkeys)
 				key := fmt.Sprintf("%s-key-%d", tag, k)
+				if longKeys {
+					// > 191 bytes: fragmented file names that share directories
+					key = fmt.Sprintf("%s%s-key-%d%s", strings.Repeat("L", 150), tag, k, strings.Repeat("x", 60+k))
+				}
 				var in regIn
 				var out regOut
 				call := time.Since(t0).Nanoseconds()
